@@ -28,6 +28,15 @@ structure ClassInfo where
   members : List String
   transient : List String
   anomalies : List String
+  /-- class family (model, kernel, normaliser, kernel-expansion, optimizer, dataset, container, operator, …) -/
+  family : String := ""
+  /-- data members mentioned by the behaviour functions (`eval`, `operator()`, `parameterVector`,
+  `numberOfParameters`, `step`, `inputShape`, `outputShape`) and by the methods of the class they call -/
+  behaviourDeps : List String := []
+  /-- members that are not archived but are mentioned by `read` (or a method it calls): rebuilt on reading -/
+  reconstructed : List String := []
+  /-- allow-listed members whose entry is only a note (not probed, nothing claimed) -/
+  noted : List String := []
   deriving Repr
 
 /-- is the member mentioned by one of the archived expressions (as an identifier)? -/
@@ -54,11 +63,22 @@ def ClassInfo.readWriteAgree (c : ClassInfo) : Bool :=
 def ClassInfo.membersCovered (c : ClassInfo) : Bool :=
   c.members.all fun m => c.writeFields.any (fun f => mentions f m) || c.transient.contains m
 
-/-- a class description together with the proofs of its two obligations -/
+/-- is the member archived (mentioned by one of the expressions `write` archives)? -/
+def ClassInfo.archives (c : ClassInfo) (m : String) : Bool := c.writeFields.any (fun f => mentions f m)
+
+/-- obligation 3 (behaviour dependencies): every member the behaviour functions read is archived, or
+rebuilt by `read`, or allow-listed with a reviewed reason (configuration / external object / functor /
+rewritten before use) — a bare note does not count -/
+def ClassInfo.depsCovered (c : ClassInfo) : Bool :=
+  c.behaviourDeps.all fun m =>
+    c.archives m || c.reconstructed.contains m || (c.transient.contains m && !c.noted.contains m)
+
+/-- a class description together with the proofs of its three obligations -/
 structure Checked where
   info : ClassInfo
   rw : info.readWriteAgree = true
   cov : info.membersCovered = true
+  dep : info.depsCovered = true
 
 /-! ### field-wise write / read -/
 
@@ -78,6 +98,7 @@ def readObj {Tok} : List String → List (List Tok) → State Tok → State Tok
 inductive Tok (V : Type) where
   | nat (n : Nat)
   | val (v : V)
+  | str (s : String)
   deriving Repr, DecidableEq
 
 structure Codec (V α : Type) where
@@ -99,6 +120,14 @@ def val : Codec V V where
   enc v := [.val v]
   dec
     | .val v :: r => some (v, r)
+    | _ => none
+  law := by intro a rest; rfl
+
+/-- `std::string` -/
+def str : Codec V String where
+  enc s := [.str s]
+  dec
+    | .str s :: r => some (s, r)
     | _ => none
   law := by intro a rest; rfl
 
@@ -204,6 +233,111 @@ def labeled {B L : Type} (cb : Codec V B) (cl : Codec V L) : Codec V (LabeledDat
   iso (pair (dataset cb) (dataset cl)) (fun d => (d.inputs, d.labels)) (fun t => ⟨t.1, t.2⟩) (by intro d; rfl)
 
 end Codec
+
+/-! ### token-level model of the hand-written container encodings
+
+The harness records the payload tokens of the real `write` through a recording
+polymorphic archive (`harness/c18_tok.hpp`: every primitive `save` call, boost's own
+bookkeeping — class ids, object ids, versions, tracking — dropped); the driver prints
+`enc` of the same state; the two streams are compared token by token. Through a
+polymorphic archive `collection_size_type` and `item_version_type` arrive as plain
+unsigned numbers, so a `std::vector<T>` is `count, item_version, items…`. -/
+
+namespace Codec
+variable {V α β : Type}
+
+/-- `std::vector<T>` as boost.serialization writes it through a polymorphic archive:
+count, item version (`iv`: 0, or 1 for `shared_ptr` items), the items -/
+def stdVector (iv : Nat) (c : Codec V α) : Codec V (List α) where
+  enc l := .nat l.length :: .nat iv :: encAll c l
+  dec
+    | .nat n :: .nat _ :: r => decN c n r
+    | _ => none
+  law := by
+    intro l rest
+    simp only [List.cons_append]
+    exact decN_encAll c l rest
+
+/-- `remora::vector<T>::serialize` read from a default-constructed vector: `count`, then the
+array unless the vector is empty (`if(!empty()) ar & make_array(data, size())`) -/
+def remoraVec (c : Codec V α) : Codec V (List α) where
+  enc l := .nat l.length :: (if l.isEmpty then [] else encAll c l)
+  dec
+    | .nat n :: r => if n = 0 then some ([], r) else decN c n r
+    | _ => none
+  law := by
+    intro l rest
+    cases l with
+    | nil => rfl
+    | cons a t =>
+      have h := decN_encAll c (a :: t) rest
+      simp only [List.length_cons] at h
+      simp [h]
+
+/-- `remora::matrix<T>::serialize`: `size1`, `size2`, `m_data` (a `std::vector<T>`) -/
+def remoraMat (c : Codec V α) : Codec V (Nat × Nat × List α) := pair nat (pair nat (stdVector 0 c))
+
+end Codec
+
+/-! #### loading into an object that was used before (stale state)
+
+`remora::vector::serialize` and `remora::matrix::serialize` are the two encoders whose load
+path touches the old state of the target (`resize(count)` keeps a prefix of the old
+elements; `m_size1 = s1` only `if(Archive::is_loading)`). Their load is modelled as a
+function of the OLD object; the theorems say the result does not depend on it. -/
+
+/-- `vector::resize(n)`: keeps the first `n` old elements, value-initialises the rest -/
+def vecResize {α} (pad : α) (old : List α) (n : Nat) : List α :=
+  old.take n ++ List.replicate (n - old.length) pad
+
+theorem vecResize_length {α} (pad : α) (old : List α) (n : Nat) : (vecResize pad old n).length = n := by
+  simp only [vecResize, List.length_append, List.length_take, List.length_replicate]
+  omega
+
+/-- `vector::serialize` when loading into `old`:
+`ar & count; resize(count); if(!empty()) ar & make_array(data(), size());` -/
+def vecLoad {V α} (c : Codec V α) (pad : α) (old : List α) : List (Tok V) → Option (List α × List (Tok V))
+  | .nat n :: r =>
+    let v := vecResize pad old n
+    if v.isEmpty then some (v, r) else Codec.decN c v.length r
+  | _ => none
+
+/-- `matrix::serialize` when loading into `old`: sizes into locals, copied into the members
+`if(Archive::is_loading::value)`, then `m_data` -/
+def matLoad {V α} (c : Codec V α) (_old : Nat × Nat × List α) : List (Tok V) → Option ((Nat × Nat × List α) × List (Tok V))
+  | .nat s1 :: .nat s2 :: r =>
+    match (Codec.stdVector 0 c).dec r with
+    | some (d, r') => some ((s1, s2, d), r')
+    | none => none
+  | _ => none
+
+/-! #### compressed (sparse) storage: raw arrays ⇄ rows -/
+
+/-- `MatrixStorage` + `compressed_matrix_impl::m_minor_size` exactly as archived -/
+structure SparseStorage (V : Type) where
+  indices : List Nat
+  values : List V
+  majorBegin : List Nat
+  majorEnd : List Nat
+  minor : Nat
+  implMinor : Nat
+  deriving Repr, DecidableEq
+
+/-- the stored (index, value) pairs of every row: positions `begin[i] … end[i]-1` -/
+def SparseStorage.rows {V} (s : SparseStorage V) : List (List (Nat × V)) :=
+  (s.majorBegin.zip s.majorEnd).map fun (b, e) => ((s.indices.zip s.values).drop b).take (e - b)
+
+/-- offsets of a packed layout: running sums of the row lengths, starting at `o` -/
+def packOffsets : List Nat → Nat → List Nat
+  | [], o => [o]
+  | n :: t, o => o :: packOffsets t (o + n)
+
+/-- packed layout (capacity = number of stored elements, rows back to back): what
+`reserve(total)` followed by `major_reserve(i, nnz_i, true)` + `set_element` in row order builds -/
+def SparseStorage.packed {V} (rows : List (List (Nat × V))) (minor : Nat) : SparseStorage V :=
+  let offs := packOffsets (rows.map List.length) 0
+  { indices := rows.flatten.map (·.1), values := rows.flatten.map (·.2),
+    majorBegin := offs, majorEnd := offs.drop 1, minor := minor, implMinor := minor }
 
 /-- write to an archive, read the whole archive back -/
 def roundTrip {V α : Type} (c : Codec V α) (a : α) : Option α :=
